@@ -116,7 +116,11 @@ def gen(seed):
     faults = {}
     if rng.random() < 0.25:
         faults[str(rng.randint(1, 4))] = rng.choice(['FileNotFoundError', 'PermissionError'])
+    concurrent = {}
+    if seed % 5 == 2:
+        concurrent[str(1 + (seed // 5) % 3)] = 'write_py'
     spec = {'property': ID, 'seed': seed, 'tree': tree, 'opt': opt, 'faults': faults,
+            'concurrent': concurrent,
             'world': {'layers': [], 'modules': []}, 'plan': [], 'knobs': {},
             'sched': {'prng': seed}}
     if ext is not None:
@@ -182,7 +186,10 @@ def run(spec, ctx):
     for d in opt.get('ignore_dir') or []:
         args += ['--ignore_dir', d]
     args.append('--list-tests')
-    simos = fssim.SimOS(rng, {int(k): v for k, v in spec.get('faults', {}).items()})
+    want = model_orphans(spec['tree'], opt, spec.get('ext'))
+    simos = fssim.SimOS(rng, {int(k): v for k, v in spec.get('faults', {}).items()},
+                        concurrent={int(k): v for k, v in (spec.get('concurrent') or {}).items()},
+                        orphans=sorted(os.path.join(top, w) for w in want))
     before = fssim.snapshot(top)
     old = ZF.os
     ZF.os = simos
@@ -193,9 +200,12 @@ def run(spec, ctx):
     after = fssim.snapshot(top)
     rel = lambda p: os.path.relpath(p.rstrip('/'), top)  # noqa: E731
     deleted = {rel(p) for p in before if p not in after}
-    created = {rel(p) for p in after if p not in before}
+    created = {rel(p) for p in after if p not in before} - {rel(p) for p in simos.written}
     modified = {rel(p) for p in before if p in after and before[p] != after[p]}
-    want = model_orphans(spec['tree'], opt, spec.get('ext'))
+    # bytecode files that got their source file (from the concurrent writer) before the runner
+    # had looked at their directory are no orphans any more
+    protected = {w for w in want if os.path.join(top, w)[:-1] in simos.written}
+    want = want - protected
     viols = []
     faulted = simos.unlink_attempts >= min([int(k) for k in spec.get('faults', {})] or [10 ** 9])
     mode = 'keep' if (opt.get('keep') or opt.get('usecompiled')) else 'clean'
@@ -206,6 +216,7 @@ def run(spec, ctx):
     extra = deleted - want
     if extra:
         kinds = sorted({('in-__pycache__' if '__pycache__' in p.split('/') else
+                         'source-written-meanwhile' if p in protected else
                          'has-py-sibling' if p.endswith(('.pyc', '.pyo')) else 'not-bytecode')
                         for p in extra})
         viols.append(C.viol('C15/deleted-non-orphan/%s/%s' % (mode, '+'.join(kinds)),
@@ -226,6 +237,7 @@ def run(spec, ctx):
     out = _ws.std_out(spec, ctx, [res], viols,
                       {'orphans': len(want), 'deleted': len(deleted),
                        'unlink_faults_fired': int(faulted), 'lookalikes': lookalikes(spec['tree']),
+                       'concurrent_writes': len(simos.written),
                        'mode_' + mode: 1, 'walks': simos.walks},
                       nontrivial=bool(want) or lookalikes(spec['tree']) > 0)
     import hashlib
